@@ -504,6 +504,7 @@ var permAllowedLists = map[string]string{
 
 func c03PermCensus(r *core.Run) {
 	p := r.P
+	r.Explain += " (PERM, census) a sequence derived from an operand list of an SSA construct is reordered only for the reviewed lists (phi edges with their labels, select states, block lists)."
 	sortNames := map[string]bool{"sort.Strings": true, "sort.Ints": true, "sort.Slice": true, "sort.SliceStable": true, "sort.Sort": true, "sort.Stable": true,
 		"slices.Sort": true, "slices.SortFunc": true, "slices.SortStableFunc": true, "slices.Reverse": true}
 	n := 0
